@@ -21,7 +21,8 @@ Definition vote_period_i (h p : Z) : option (Z * Z) :=
 (* the range of vote periods Params.Validate accepts (after the repair of F10) *)
 Definition max_vote_period : Z := 4611686018427387903. (* MaxInt64 / 2 *)
 Definition valid_period (p : Z) : Prop := 1 <= p <= max_vote_period.
-Definition valid_height (h : Z) : Prop := 0 <= h < two63 - 2 * max_vote_period - 2.
+(* heights whose round end still fits in int64 (the chain would need 2^63 blocks to leave this range) *)
+Definition valid_height (p h : Z) : Prop := 0 <= h /\ h + 2 * p < two63.
 
 (* mathematical specification *)
 Definition rstart (h p : Z) : Z := h - h mod (2 * p).
